@@ -4,6 +4,7 @@ Everything here is pure graph / tree work on the resolved program (type-checked 
 of every in-scope function instantiation). No analysed code is executed.
 """
 import json
+import os
 import re
 from collections import defaultdict, deque
 
@@ -230,6 +231,7 @@ class Fn:
         self.entry = raw["entry"]
         self.exit = raw["exit"]
         self.tu = None
+        self.cfg = ""
         self._dom = None
         self._pdom = None
         self._preds = None
@@ -647,28 +649,43 @@ class Facts:
         self.records = {}
         self.dups = 0
 
-    def add_tu(self, path, raw):
+    def add_tu(self, path, raw, keep_all=True):
+        """Add one unit. Functions are unique per (configuration, qname, location, instantiation
+        display, lambda parent chain): by the ODR a second unit's copy of the same key under the same
+        configuration has the same body, so the first occurrence is the canonical Fn and later units'
+        ids are mapped to it. Different configurations (c14 / c17 / debug) are never merged."""
+        cfg = path.split(":", 1)[0] if ":" in path else ""
         self.tus[path] = {"errors": raw.get("errors", 0), "nfunctions": len(raw["functions"])}
+        local = {}
+        order = []
         for rf in raw["functions"]:
             fn = Fn(rf, self)
             fn.tu = path
-            self._by_tu[path][fn.id] = fn
-            self._tu_list[path].append(fn)
+            fn.cfg = cfg
+            local[fn.id] = fn
+            order.append(fn)
+        self._by_tu[path] = local
         for w in raw.get("witnesses", []):
             self.witnesses.setdefault(w["qname"], w)
         for r in raw.get("records", []):
             self.records.setdefault(r["inst"], r)
-        # uniqueness: lambdas are keyed through their parent chain
-        for fn in self._tu_list[path]:
+        canon = {}
+        for fn in order:
             k = self._full_key(fn)
-            if k in self.by_key:
+            c = self.by_key.get(k)
+            if c is not None:
                 self.dups += 1
+                canon[fn.id] = c
                 continue
             self.by_key[k] = fn
             self.fns.append(fn)
+            canon[fn.id] = fn
+        # later lookups through this unit's ids resolve to the canonical copies
+        self._by_tu[path] = canon
+        self._tu_list[path] = [f for f in order if canon[f.id] is f]
 
     def _full_key(self, fn):
-        ks = []
+        ks = [fn.cfg]
         f = fn
         while f is not None:
             ks.append(f.key)
@@ -704,9 +721,57 @@ class Facts:
         return self.by_id(fn.tu, fid)
 
 
-def load(paths):
+def load(paths, pack=None):
+    """paths: [(label, json file)]. With `pack`, the de-duplicated union is persisted (marshal) next
+    to the per-unit facts and reused by later runs over the same unit list: the thorough tier parses
+    ~170 units whose header instantiations overlap almost entirely."""
+    import marshal
+    if pack and os.path.exists(pack):
+        try:
+            with open(pack, "rb") as fh:
+                data = marshal.load(fh)
+            return _from_pack(data)
+        except Exception:
+            pass
     F = Facts()
     for p, jf in paths:
         with open(jf) as fh:
             F.add_tu(p, json.load(fh))
+    if pack:
+        data = _to_pack(F)
+        tmp = pack + ".tmp%d" % os.getpid()
+        with open(tmp, "wb") as fh:
+            marshal.dump(data, fh)
+        os.rename(tmp, pack)
+    return F
+
+
+def _to_pack(F):
+    idx = {id(fn): i for i, fn in enumerate(F.fns)}
+    return {
+        "tus": F.tus,
+        "fns": [(fn.tu, fn.raw) for fn in F.fns],
+        "idmaps": {tu: {fid: idx[id(fn)] for fid, fn in m.items()} for tu, m in F._by_tu.items()},
+        "witnesses": F.witnesses,
+        "records": F.records,
+        "dups": F.dups,
+    }
+
+
+def _from_pack(data):
+    F = Facts()
+    F.tus = data["tus"]
+    for tu, raw in data["fns"]:
+        fn = Fn(raw, F)
+        fn.tu = tu
+        fn.cfg = tu.split(":", 1)[0] if ":" in tu else ""
+        F.fns.append(fn)
+    for tu, m in data["idmaps"].items():
+        F._by_tu[tu] = {fid: F.fns[i] for fid, i in m.items()}
+    for fn in F.fns:
+        F._tu_list[fn.tu].append(fn)
+        F.by_key[F._full_key(fn)] = fn
+    F.witnesses = data["witnesses"]
+    F.records = data["records"]
+    F.dups = data["dups"]
     return F
